@@ -79,19 +79,27 @@ with wf_fields_sized (fs : fields) : bool :=
   | FNil => true
   | FCons t r => wf t && sized t && wf_fields_sized r
   end
-(* non-empty, all but the last sized (the last may be sized or not: the macro only needs Flat) *)
+(* non-empty, all but the last sized, the last unsized (with a sized last field the struct itself
+   is Sized and the generated impls collide with the blanket ones: rejected by rustc) *)
 with wf_fields_unsized (fs : fields) : bool :=
   match fs with
   | FNil => false
-  | FCons t FNil => wf t
+  | FCons t FNil => wf t && negb (sized t)
   | FCons t r => wf t && sized t && wf_fields_unsized r
+  end
+(* variant of an unsized enum: non-empty, all but the last sized, the last anything *)
+with wf_fields_any (fs : fields) : bool :=
+  match fs with
+  | FNil => false
+  | FCons t FNil => wf t
+  | FCons t r => wf t && sized t && wf_fields_any r
   end
 with wf_variants (s : bool) (vs : variants) : bool :=
   match vs with
   | VNil => true
   | VCons fs r =>
       (if s then wf_fields_sized fs
-       else match fs with FNil => true | _ => wf_fields_unsized fs end)
+       else match fs with FNil => true | _ => wf_fields_any fs end)
       && wf_variants s r
   end.
 
